@@ -153,7 +153,7 @@ impl Prop for C17 {
         ]
     }
     fn cases(tier: Tier) -> u64 {
-        tier.pick(30_000, 400_000)
+        tier.pick(30_000, 150_000)
     }
     fn strategy(tier: Tier) -> BoxedStrategy<Case> {
         let region = (any::<u16>(), pos_sel(), pos_sel(), 0u8..=5).prop_map(|(c, a, b, extra)| Region { c, a, b, extra });
